@@ -244,7 +244,9 @@ def load_known():
 
 def known_match(prop, ob):
     for k in load_known():
-        if k.get('status') == 'known' and k.get('property') == prop and k.get('obligation') == ob.get('id'):
+        if k.get('status') != 'known' or prop not in k.get('properties', [k.get('property')]):
+            continue
+        if k.get('obligation') == ob.get('id') or ob.get('id') in k.get('obligations_known', []):
             return {'id': k.get('id'), 'obligation': ob['id'], 'text': k.get('text')}
     return None
 
